@@ -64,7 +64,7 @@ def gen(w, rng):
         if kind == "O":
             value = rng.choice(["p", "zz"])
         else:
-            value = rng.choice([7, -5, 2.5, {"sel": rng.choice([3, 11])}, {"sel_nd": rng.choice([4, 12])}, {"sel_ma": rng.choice([6, 13])}])
+            value = rng.choice([7, -5, 2.5, 7.6, -8.7, {"sel": rng.choice([3, 11])}, {"sel_nd": rng.choice([4, 12])}, {"sel_ma": rng.choice([6, 13])}])
         return {"op": "disk_assign", "path": path, "name": name, "idx": idx, "pos": pos, "value": value,
                 "via": rng.choice(["item", "write"]), "check_other_handle": rng.random() < 0.3,
                 "reject_first": rng.random() < 0.2}
